@@ -5,6 +5,7 @@ From Coq Require Import NArith ZArith List Bool Lia.
 From Q.Base Require Import RExpr Bits.
 From Q.Model Require Import Codec.
 From Q.Gen Require Import GenCodec.
+From Q.Proofs Require Import Geometry.
 Import ListNotations.
 Open Scope N_scope.
 
@@ -121,27 +122,6 @@ Proof. reflexivity. Qed.
 #[export] Hint Rewrite geq_l2_compressed_descriptor : geq.
 
 (* ---------------- geometry-dependent functions ---------------- *)
-(* ranges of the u8/u32 fields of Qcow2Info that keep the evaluator's checks quiet *)
-Record info_rng (i : info) : Prop := {
-  r_cs : 9 <= cluster_shift i <= 21;
-  r_ro : refcount_order i <= 6;
-  r_bs : 9 <= block_size_shift i <= 12;
-  r_l2sb : 9 <= l2_slice_bits i <= cluster_shift i;
-  r_rbsb : 9 <= rb_slice_bits i <= cluster_shift i;
-  r_l2is : l2_index_shift i = cluster_shift i - 3;
-  r_l2sis : l2_slice_index_shift i = l2_slice_bits i - 3;
-  r_rbis : rb_index_shift i = cluster_shift i + 3 - refcount_order i;
-  r_rbsis : rb_slice_index_shift i = rb_slice_bits i + 3 - refcount_order i;
-  r_l2se : l2_slice_entries i = 2 ^ (l2_slice_bits i - 3);
-  r_mask : in_cluster_offset_mask i = 2 ^ cluster_shift i - 1;
-  r_l2mask : l2_index_mask i = 2 ^ (cluster_shift i - 3) - 1;
-  r_rbmask : rb_index_mask i = 2 ^ (cluster_shift i + 3 - refcount_order i) - 1;
-  r_vs : virtual_size i < 2 ^ 64;
-}.
-
-Lemma pow2_ge1 n : 1 <= 2 ^ n.
-Proof. pose proof (pow2_pos n). lia. Qed.
-
 Ltac geq := rxi; calls; lit_pows; small_mods; repeat (chk; calls; small_mods); try reflexivity.
 Ltac geqi := unfold shl64, shl32 in *; geq.
 
@@ -156,22 +136,22 @@ Proof. reflexivity. Qed.
 
 Lemma geq_cluster_size i : info_rng i ->
   call g_Qcow2Info_cluster_size [v_info i] = Ret (VInt (cluster_size i)).
-Proof. intros []. unfold g_Qcow2Info_cluster_size, cluster_size. geqi. Qed.
+Proof. intros R0; dR R0. unfold g_Qcow2Info_cluster_size, cluster_size. geqi. Qed.
 #[export] Hint Rewrite geq_cluster_size : geq.
 
 Lemma geq_rb_entries i : info_rng i ->
   call g_Qcow2Info_rb_entries [v_info i] = Ret (VInt (rb_entries i)).
-Proof. intros R. pose proof R as []. unfold g_Qcow2Info_rb_entries, rb_entries. geqi. Qed.
+Proof. intros R. pose proof R as R0; dR R0. unfold g_Qcow2Info_rb_entries, rb_entries. geqi. Qed.
 #[export] Hint Rewrite geq_rb_entries : geq.
 
 Lemma geq_l2_entries i : info_rng i ->
   call g_Qcow2Info_l2_entries [v_info i] = Ret (VInt (l2_entries i)).
-Proof. intros R. pose proof R as []. unfold g_Qcow2Info_l2_entries, l2_entries. geqi. Qed.
+Proof. intros R. pose proof R as R0; dR R0. unfold g_Qcow2Info_l2_entries, l2_entries. geqi. Qed.
 #[export] Hint Rewrite geq_l2_entries : geq.
 
 Lemma geq_rb_slice_entries i : info_rng i ->
   call g_Qcow2Info_rb_slice_entries [v_info i] = Ret (VInt (rb_slice_entries i)).
-Proof. intros []. unfold g_Qcow2Info_rb_slice_entries, rb_slice_entries. geqi. Qed.
+Proof. intros R0; dR R0. unfold g_Qcow2Info_rb_slice_entries, rb_slice_entries. geqi. Qed.
 #[export] Hint Rewrite geq_rb_slice_entries : geq.
 
 Lemma geq_in_cluster_offset i off :
@@ -187,7 +167,7 @@ Proof. unfold g_Qcow2Info_cluster_round_down, cluster_round_down. geqi. Qed.
 Lemma geq_cluster_round_up i off : info_rng i -> off < 2 ^ 63 ->
   call g_Qcow2Info_cluster_round_up [v_info i; VInt off] = Ret (VInt (cluster_round_up i off)).
 Proof.
-  intros [] Ho. unfold g_Qcow2Info_cluster_round_up, cluster_round_up. geqi.
+  intros R0 Ho; dR R0. unfold g_Qcow2Info_cluster_round_up, cluster_round_up. geqi.
   rewrite r_mask0 in *. pose proof (pow2_lt_mono (cluster_shift i) 22 ltac:(lia)).
   change (2 ^ 63) with 9223372036854775808 in Ho. change (2 ^ 22) with 4194304 in *. lia.
 Qed.
@@ -196,25 +176,25 @@ Qed.
 (* --- SplitGuestOffset --- *)
 Lemma geq_sg_l1_index i g : info_rng i ->
   call g_SplitGuestOffset_l1_index [VInt g; v_info i] = Ret (VInt (sg_l1_index i g)).
-Proof. intros []. unfold g_SplitGuestOffset_l1_index, sg_l1_index. geq. Qed.
+Proof. intros R0; dR R0. unfold g_SplitGuestOffset_l1_index, sg_l1_index. geq. Qed.
 #[export] Hint Rewrite geq_sg_l1_index : geq.
 
 Lemma geq_sg_l2_index i g : info_rng i ->
   call g_SplitGuestOffset_l2_index [VInt g; v_info i] = Ret (VInt (sg_l2_index i g)).
-Proof. intros []. unfold g_SplitGuestOffset_l2_index, sg_l2_index. geq. Qed.
+Proof. intros R0; dR R0. unfold g_SplitGuestOffset_l2_index, sg_l2_index. geq. Qed.
 #[export] Hint Rewrite geq_sg_l2_index : geq.
 
 Lemma geq_sg_l2_slice_index i g : info_rng i ->
   call g_SplitGuestOffset_l2_slice_index [VInt g; v_info i] = Ret (VInt (sg_l2_slice_index i g)).
 Proof.
-  intros []. unfold g_SplitGuestOffset_l2_slice_index, sg_l2_slice_index.
+  intros R0; dR R0. unfold g_SplitGuestOffset_l2_slice_index, sg_l2_slice_index.
   pose proof (pow2_ge1 (l2_slice_bits i - 3)). pose proof (pow2_lt_mono (l2_slice_bits i - 3) 32 ltac:(lia)). geq.
 Qed.
 #[export] Hint Rewrite geq_sg_l2_slice_index : geq.
 
 Lemma geq_sg_l2_slice_key i g : info_rng i ->
   call g_SplitGuestOffset_l2_slice_key [VInt g; v_info i] = Ret (VInt (sg_l2_slice_key i g)).
-Proof. intros []. unfold g_SplitGuestOffset_l2_slice_key, sg_l2_slice_key. geq. Qed.
+Proof. intros R0; dR R0. unfold g_SplitGuestOffset_l2_slice_key, sg_l2_slice_key. geq. Qed.
 #[export] Hint Rewrite geq_sg_l2_slice_key : geq.
 
 Lemma geq_sg_in_cluster_offset i g :
@@ -226,14 +206,14 @@ Lemma geq_sg_l2_slice_off_in_table i g : info_rng i ->
   call g_SplitGuestOffset_l2_slice_off_in_table [VInt g; v_info i]
   = Ret (VInt (sg_l2_slice_off_in_table i g)).
 Proof.
-  intros R. pose proof R as []. unfold g_SplitGuestOffset_l2_slice_off_in_table, sg_l2_slice_off_in_table. geqi.
+  intros R. pose proof R as R0; dR R0. unfold g_SplitGuestOffset_l2_slice_off_in_table, sg_l2_slice_off_in_table. geqi.
 Qed.
 #[export] Hint Rewrite geq_sg_l2_slice_off_in_table : geq.
 
 Lemma geq_sg_cluster_offset i g : info_rng i -> g < 2 ^ 64 ->
   call g_SplitGuestOffset_cluster_offset [VInt g; v_info i] = Ret (VInt (sg_cluster_offset i g)).
 Proof.
-  intros R Hg. pose proof R as []. unfold g_SplitGuestOffset_cluster_offset, sg_cluster_offset. geqi.
+  intros R Hg. pose proof R as R0; dR R0. unfold g_SplitGuestOffset_cluster_offset, sg_cluster_offset. geqi.
   unfold sg_l1_index, sg_l2_index in *.
   change 18446744073709551616 with (2 ^ 64) in *.
   match goal with H : 2 ^ 64 <= ?a mod _ + ?b |- _ =>
@@ -252,17 +232,17 @@ Qed.
 (* --- HostCluster --- *)
 Lemma geq_hc_rt_index i h : info_rng i ->
   call g_HostCluster_rt_index [VInt h; v_info i] = Ret (VInt (hc_rt_index i h)).
-Proof. intros []. unfold g_HostCluster_rt_index, hc_rt_index. geqi. Qed.
+Proof. intros R0; dR R0. unfold g_HostCluster_rt_index, hc_rt_index. geqi. Qed.
 #[export] Hint Rewrite geq_hc_rt_index : geq.
 
 Lemma geq_hc_rb_index i h : info_rng i ->
   call g_HostCluster_rb_index [VInt h; v_info i] = Ret (VInt (hc_rb_index i h)).
-Proof. intros []. unfold g_HostCluster_rb_index, hc_rb_index. geqi. Qed.
+Proof. intros R0; dR R0. unfold g_HostCluster_rb_index, hc_rb_index. geqi. Qed.
 #[export] Hint Rewrite geq_hc_rb_index : geq.
 
 Lemma rbse_pos i : info_rng i -> 1 <= rb_slice_entries i.
 Proof.
-  intros []. unfold rb_slice_entries, shl32.
+  intros R0; dR R0. unfold rb_slice_entries, shl32.
   rewrite shiftl_1, pow2_mod_small by lia. rewrite shiftr_div.
   apply N.div_le_lower_bound; [apply pow2_nz|]. rewrite N.mul_1_r. apply pow2_le_mono. lia.
 Qed.
@@ -270,14 +250,14 @@ Qed.
 Lemma geq_hc_rb_slice_index i h : info_rng i ->
   call g_HostCluster_rb_slice_index [VInt h; v_info i] = Ret (VInt (hc_rb_slice_index i h)).
 Proof.
-  intros R. pose proof (rbse_pos i R) as Hp. pose proof R as [].
+  intros R. pose proof (rbse_pos i R) as Hp. pose proof R as R0; dR R0.
   unfold g_HostCluster_rb_slice_index, hc_rb_slice_index. geq.
 Qed.
 #[export] Hint Rewrite geq_hc_rb_slice_index : geq.
 
 Lemma geq_hc_rb_slice_key i h : info_rng i ->
   call g_HostCluster_rb_slice_key [VInt h; v_info i] = Ret (VInt (hc_rb_slice_key i h)).
-Proof. intros []. unfold g_HostCluster_rb_slice_key, hc_rb_slice_key. geqi. Qed.
+Proof. intros R0; dR R0. unfold g_HostCluster_rb_slice_key, hc_rb_slice_key. geqi. Qed.
 #[export] Hint Rewrite geq_hc_rb_slice_key : geq.
 
 Lemma shl64_1_ge1 k : k < 64 -> 1 <= shl64 1 k.
@@ -286,7 +266,7 @@ Proof. intros. unfold shl64. rewrite shiftl_1, pow2_mod_small by assumption. app
 Lemma geq_hc_rb_slice_host_start i h : info_rng i ->
   call g_HostCluster_rb_slice_host_start [VInt h; v_info i] = Ret (VInt (hc_rb_slice_host_start i h)).
 Proof.
-  intros []. unfold g_HostCluster_rb_slice_host_start, hc_rb_slice_host_start.
+  intros R0; dR R0. unfold g_HostCluster_rb_slice_host_start, hc_rb_slice_host_start.
   pose proof (shl64_1_ge1 (cluster_shift i + rb_slice_index_shift i) ltac:(lia)). geqi.
 Qed.
 #[export] Hint Rewrite geq_hc_rb_slice_host_start : geq.
@@ -294,14 +274,14 @@ Qed.
 Lemma geq_hc_rb_host_start i h : info_rng i ->
   call g_HostCluster_rb_host_start [VInt h; v_info i] = Ret (VInt (hc_rb_host_start i h)).
 Proof.
-  intros []. unfold g_HostCluster_rb_host_start, hc_rb_host_start.
+  intros R0; dR R0. unfold g_HostCluster_rb_host_start, hc_rb_host_start.
   pose proof (shl64_1_ge1 (cluster_shift i + rb_index_shift i) ltac:(lia)). geqi.
 Qed.
 #[export] Hint Rewrite geq_hc_rb_host_start : geq.
 
 Lemma geq_hc_rb_slice_off_in_table i h : info_rng i ->
   call g_HostCluster_rb_slice_off_in_table [VInt h; v_info i] = Ret (VInt (hc_rb_slice_off_in_table i h)).
-Proof. intros R. pose proof R as []. unfold g_HostCluster_rb_slice_off_in_table, hc_rb_slice_off_in_table. geqi. Qed.
+Proof. intros R. pose proof R as R0; dR R0. unfold g_HostCluster_rb_slice_off_in_table, hc_rb_slice_off_in_table. geqi. Qed.
 #[export] Hint Rewrite geq_hc_rb_slice_off_in_table : geq.
 
 Lemma land_le x m : N.land x m <= x.
@@ -316,7 +296,7 @@ Qed.
 Lemma geq_hc_rb_slice_host_end i h : info_rng i -> h < 2 ^ 63 ->
   call g_HostCluster_rb_slice_host_end [VInt h; v_info i] = Ret (VInt (hc_rb_slice_host_end i h)).
 Proof.
-  intros R Hh. pose proof R as [].
+  intros R Hh. pose proof R as R0; dR R0.
   unfold g_HostCluster_rb_slice_host_end, hc_rb_slice_host_end. geq.
   unfold hc_rb_slice_host_start, shl32 in *.
   match goal with H : _ <= N.land h ?m + ?b mod _ |- _ =>
@@ -328,7 +308,7 @@ Qed.
 Lemma geq_hc_rb_host_end i h : info_rng i -> h < 2 ^ 63 ->
   call g_HostCluster_rb_host_end [VInt h; v_info i] = Ret (VInt (hc_rb_host_end i h)).
 Proof.
-  intros R Hh. pose proof R as [].
+  intros R Hh. pose proof R as R0; dR R0.
   unfold g_HostCluster_rb_host_end, hc_rb_host_end. geq.
   unfold hc_rb_host_start, shl64 in *.
   match goal with H : _ <= N.land h ?m + ?b mod _ |- _ =>
@@ -340,7 +320,7 @@ Lemma geq_hc_cluster_off_from_slice i h idx : info_rng i -> h < 2 ^ 63 -> idx < 
   call g_HostCluster_cluster_off_from_slice [VInt h; v_info i; VInt idx]
   = Ret (VInt (hc_cluster_off_from_slice i h idx)).
 Proof.
-  intros R Hh Hi. pose proof R as [].
+  intros R Hh Hi. pose proof R as R0; dR R0.
   unfold g_HostCluster_cluster_off_from_slice, hc_cluster_off_from_slice. geq.
   unfold hc_rb_slice_host_start, shl64 in *.
   match goal with H : _ <= N.land h ?m + ?b mod _ |- _ =>
@@ -442,7 +422,7 @@ Qed.
 Lemma geq_l2_into_mapping i v g : info_rng i -> g < 2 ^ 64 ->
   call g_L2Entry_into_mapping [VInt v; v_info i; VInt g] = Ret (v_mapping (l2_into_mapping i v g)).
 Proof.
-  intros R Hg. pose proof R as []. unfold g_L2Entry_into_mapping, l2_into_mapping. rxi. calls.
+  intros R Hg. pose proof R as R0; dR R0. unfold g_L2Entry_into_mapping, l2_into_mapping. rxi. calls.
   lit_pows. small_mods.
   destruct (l2_compressed_range (cluster_shift i) v) as [[o l]|] eqn:E; cbn [v_pair option_map fst snd]; rx.
   - reflexivity.
@@ -461,17 +441,6 @@ Ltac fold_eqb_in H :=
   | context [N.eqb ?a ?b] => is_N_lit a; is_N_lit b;
       let r := eval vm_compute in (N.eqb a b) in change (N.eqb a b) with r in H
   end; cbv iota in H.
-
-(* the mappings on which L2Entry::from_mapping does not panic *)
-Definition from_mapping_pre (cb : N) (m : mapping) : Prop :=
-  match m_offset m with Some o => o <= 72057594037927935 | None => True end /\
-  l2_reserved_bits (l2_from_mapping cb m) = 0 /\
-  ((m_source m = SRC_DATA /\ m_clen m = None /\ m_offset m <> None) \/
-   (m_source m = SRC_BACKING /\ m_clen m = None /\ m_copied m = false) \/
-   (m_source m = SRC_ZERO /\ m_clen m = None /\ (m_copied m = true -> m_offset m <> None)) \/
-   (m_source m = SRC_COMPRESSED /\ m_copied m = false /\
-      exists o len, m_offset m = Some o /\ m_clen m = Some len /\ 1 <= len < 2 ^ cb) \/
-   m_source m = SRC_UNALLOC).
 
 Lemma geq_l2_from_mapping cb m : 9 <= cb <= 21 -> from_mapping_pre cb m ->
   call g_L2Entry_from_mapping [v_mapping m; VInt cb] = Ret (VInt (l2_from_mapping cb m)).
@@ -530,11 +499,6 @@ Proof.
 Qed.
 
 (* ---------------- refcount blocks ---------------- *)
-Definition rb_in_range (ro len idx : N) : Prop :=
-  match ro with
-  | 0 => idx / 8 < len | 1 => idx / 4 < len | 2 => idx / 2 < len | 3 => idx < len
-  | 4 => idx * 2 + 2 <= len | 5 => idx * 4 + 4 <= len | _ => idx * 8 + 8 <= len
-  end.
 
 Lemma nth_error_byte_at l i : i < N.of_nat (length l) ->
   nth_error l (N.to_nat i) = Some (byte_at l i).
@@ -550,7 +514,6 @@ Proof.
   cbn [skipn nth]. apply IH. cbn [length] in H. lia.
 Qed.
 
-Definition bytes_ok (l : list N) : Prop := Forall (fun b => b < 256) l.
 
 Lemma byte_at_lt l i : bytes_ok l -> byte_at l i < 256.
 Proof.
